@@ -60,6 +60,7 @@ type task struct {
 	prio     int
 	phase    string
 	selects  int
+	snooze   int64 // not schedulable before this decision number (unless nothing else is)
 	inOp     bool // between Pre and Post of an instrumented operation (operand evaluation may yield in between)
 }
 
@@ -379,6 +380,16 @@ func (v env) Sleep(ns int64) {
 	e.res.Faults["consumer-delay"]++
 	e.park(t, -4, 0)
 }
+func (v env) Snooze(n int) {
+	e := v.e
+	t := e.running
+	if t == nil || t.aborting {
+		return
+	}
+	t.snooze = e.res.Decisions + int64(n)
+	e.res.Faults["consumer-snooze"]++
+	e.park(t, -5, 0)
+}
 func (v env) Seq() int64 { return v.e.res.Decisions }
 func (v env) Event(kind, detail string) {
 	v.e.logf("ev %d %s %s", v.e.res.Decisions, kind, detail)
@@ -469,7 +480,7 @@ func (e *Engine) runPhase() {
 		}
 		e.running = nil
 		now := time.Since(e.t0)
-		var cand []*task
+		var cand, snoozers []*task
 		var forced *task
 		var minWake time.Duration = -1
 		for _, t := range e.tasks {
@@ -485,7 +496,14 @@ func (e *Engine) runPhase() {
 			if t.kind == verifrt.KSelect && forced == nil {
 				forced = t // about to enter a select: push it in so that two ready cases never coexist
 			}
+			if t.snooze > e.res.Decisions {
+				snoozers = append(snoozers, t)
+				continue
+			}
 			cand = append(cand, t)
+		}
+		if len(cand) == 0 && len(snoozers) > 0 {
+			cand = snoozers // nothing else can run: lateness is over
 		}
 		if len(cand) == 0 {
 			if minWake >= 0 {
@@ -499,6 +517,13 @@ func (e *Engine) runPhase() {
 		if forced != nil {
 			t = forced
 		} else {
+			if p := e.w.Sched.JumpProb; p > 0 && minWake >= 0 && e.rng.Float() < p {
+				// a sleeper wakes in the middle of the others' work (otherwise simulated time only moves
+				// at quiescence, and a delayed consumer would always be slower than any computation)
+				time.Sleep(minWake - now)
+				e.res.Faults["clock-jump-while-runnable"]++
+				continue
+			}
 			if p := e.w.Sched.TickProb; p > 0 && e.rng.Float() < p {
 				time.Sleep(3 * time.Second)
 				e.res.Faults["clock-advance-3s"]++
